@@ -86,6 +86,15 @@ func collect(cur protoreflect.Message, path Path, depth int, out *[]Deviation) {
 			mp.Range(func(k protoreflect.MapKey, _ protoreflect.Value) bool { ks = append(ks, k); return true })
 			sort.Slice(ks, func(a, b int) bool { return ks[a].String() < ks[b].String() })
 			add(fd, "add-key", "dev", func(m protoreflect.Message) { SetFieldDepth(m, fd, 7, "D", 1) })
+			if fd.MapKey().Kind() == protoreflect.Int32Kind && fd.MapValue().Kind() == protoreflect.StringKind {
+				// a key outside the enum the map is keyed by, and a negative one
+				add(fd, "add-key-undeclared", "dev", func(m protoreflect.Message) {
+					m.Mutable(fd).Map().Set(protoreflect.ValueOfInt32(9999).MapKey(), protoreflect.ValueOfString("v-undeclared"))
+				})
+				add(fd, "add-key-negative", "dev", func(m protoreflect.Message) {
+					m.Mutable(fd).Map().Set(protoreflect.ValueOfInt32(-1).MapKey(), protoreflect.ValueOfString("v-negative"))
+				})
+			}
 			if len(ks) > 0 {
 				k0 := ks[0]
 				add(fd, "delete-key", "dev", func(m protoreflect.Message) { m.Mutable(fd).Map().Clear(k0) })
@@ -100,6 +109,9 @@ func collect(cur protoreflect.Message, path Path, depth int, out *[]Deviation) {
 		case fd.IsList():
 			n := cur.Get(fd).List().Len()
 			add(fd, "append", "dev", func(m protoreflect.Message) { SetFieldDepth(m, fd, 7, "D", 1) })
+			if fd.Kind() == protoreflect.EnumKind {
+				add(fd, "append-undeclared", "dev", func(m protoreflect.Message) { m.Mutable(fd).List().Append(protoreflect.ValueOfEnum(9999)) })
+			}
 			if n > 0 {
 				add(fd, "duplicate-elem0", "dev", func(m protoreflect.Message) {
 					l := m.Mutable(fd).List()
@@ -227,6 +239,11 @@ func collect(cur protoreflect.Message, path Path, depth int, out *[]Deviation) {
 				}
 				m.Set(fd, nv)
 			})
+			if fd.Kind() == protoreflect.EnumKind {
+				// numbers outside the declared enum (open proto3 enums: a document written by a newer schema)
+				add(fd, "set-undeclared-9999", "dev", func(m protoreflect.Message) { m.Set(fd, protoreflect.ValueOfEnum(9999)) })
+				add(fd, "set-undeclared-minus1", "dev", func(m protoreflect.Message) { m.Set(fd, protoreflect.ValueOfEnum(-1)) })
+			}
 			if cur.Has(fd) {
 				add(fd, "clear", "dev", func(m protoreflect.Message) { m.Clear(fd) })
 			}
